@@ -18,6 +18,13 @@ def _app(rule, text, a, b, after, trusted="nothing"):
 
 
 def _receiver_start(m, end):
+    r = _receiver_start0(m, end)
+    while r < end and m[r].isspace():
+        r += 1
+    return r
+
+
+def _receiver_start0(m, end):
     """Given masked text m and index `end` just past a receiver expression
     (i.e. m[end] == '.'), walk backwards to the start of the postfix chain."""
     i = end
@@ -111,11 +118,21 @@ def rule_vis(text):
 
 
 def rule_lifetime_const(text):
+    apps = []
     mm = re.match(r"((?:pub\s+)?const\s+\w+\s*:\s*)&(\s*\[)", text)
     if mm:
         new = mm.group(1) + "&'static " + mm.group(2).lstrip() + text[mm.end():]
-        return new, [_app("R-lt", text, 0, mm.end(), mm.group(1) + "&'static [")]
-    return text, []
+        apps.append(_app("R-lt", text, 0, mm.end(), mm.group(1) + "&'static ["))
+        text = new
+    # byte-string literal -> array literal (Verus knows the length of b"..." but not its contents)
+    bm = re.search(r'=\s*(b"(?:[^"\\]|\\.)*")\s*;', text)
+    if bm:
+        import ast
+        val = ast.literal_eval(bm.group(1))
+        arr = "&[" + ", ".join("%du8" % b for b in val) + "]"
+        apps.append(_app("R-bstr", text, bm.start(1), bm.end(1), arr, "decoding of the byte-string literal's escapes"))
+        text = text[:bm.start(1)] + arr + text[bm.end(1):]
+    return text, apps
 
 
 # ---------------------------------------------------------------- Option::map / filter / and_then
@@ -429,3 +446,249 @@ def rule_slice_ne(text):
         a, b, new = hit
         apps.append(_app("R-seq", text, a, b, new, "shim: byte-wise slice equality (PartialEq for [u8])"))
         text = text[:a] + new + text[b:]
+
+
+# ---------------------------------------------------------------- journal-unit rules
+def rule_for_enum(text):
+    """`for (I, &PAT) in E.iter().enumerate() {` -> `for I in 0..E.len() { let PAT = E[I];`"""
+    apps = []
+    while True:
+        m = mask(text)
+        mm = re.search(r"for\s*\(\s*(\w+)\s*,\s*&", m)
+        hit = None
+        for mm in re.finditer(r"for\s*\(\s*(\w+)\s*,\s*&", m):
+            # pattern after '&' up to the closing paren of the tuple pattern
+            start_pat = mm.end()
+            # find matching ')' of the outer '(' that follows `for`
+            op = m.index("(", mm.start())
+            cl = match_close(m, op)
+            pat = text[start_pat:cl].strip()
+            t = re.match(r"\s*in\s+", m[cl + 1:])
+            if not t:
+                continue
+            e_start = cl + 1 + t.end()
+            t2 = re.search(r"\.\s*iter\s*\(\s*\)\s*\.\s*enumerate\s*\(\s*\)\s*\{", m[e_start:])
+            if not t2:
+                continue
+            e = text[e_start:e_start + t2.start()].strip()
+            end = e_start + t2.end()
+            idx = mm.group(1)
+            new = "for %s in 0..%s.len() { let %s = %s[%s];" % (idx, e, pat, e, idx)
+            hit = (mm.start(), end, new)
+            break
+        if not hit:
+            return text, apps
+        a, b, new = hit
+        apps.append(_app("R-for", text, a, b, new, "definition of enumerate() over a slice"))
+        text = text[:a] + new + text[b:]
+
+
+def rule_cpy(text):
+    """`D[a..b].copy_from_slice(S)` -> `copy_into_vec(&mut D, a, b, S)` / `copy_into_slice(D, a, b, S)`"""
+    apps = []
+    while True:
+        m = mask(text)
+        hit = None
+        for dot, op, cl in _method_calls(text, m, "copy_from_slice"):
+            # receiver must end with an index expression
+            j = dot - 1
+            while j >= 0 and m[j].isspace():
+                j -= 1
+            if j < 0 or m[j] != "]":
+                continue
+            d = 0
+            k = j
+            while k >= 0:
+                if m[k] == "]":
+                    d += 1
+                elif m[k] == "[":
+                    d -= 1
+                    if d == 0:
+                        break
+                k -= 1
+            inner = text[k + 1:j]
+            parts = split_top_level(m[k + 1:j], inner, "..")
+            if len(parts) != 2:
+                continue
+            rs = _receiver_start(m, k)
+            base = text[rs:k].strip()
+            lo = parts[0].strip() or "0"
+            hi = parts[1].strip() or ("%s.len()" % base)
+            src = text[op + 1:cl].strip()
+            if base in _VEC_RECEIVERS:
+                new = "copy_into_vec(&mut %s, %s, %s, %s)" % (base, lo, hi, src)
+            else:
+                new = "copy_into_slice(%s, %s, %s, %s)" % (base, lo, hi, src)
+            hit = (rs, cl + 1, new)
+            break
+        if not hit:
+            return text, apps
+        a, b, new = hit
+        apps.append(_app("R-cpy", text, a, b, new, "shim: bytes a..b replaced by the source, rest unchanged; requires b-a == |source| (std panics otherwise)"))
+        text = text[:a] + new + text[b:]
+
+
+def rule_tole(text):
+    """`&E.to_le_bytes()` / `E.to_le_bytes()` -> `E.le_bytes().as_slice()`"""
+    apps = []
+    while True:
+        m = mask(text)
+        mm = re.search(r"\.\s*to_le_bytes\s*\(\s*\)", m)
+        if not mm:
+            return text, apps
+        rs = _receiver_start(m, mm.start())
+        recv = text[rs:mm.start()].strip()
+        a = rs
+        k = rs - 1
+        while k >= 0 and m[k].isspace():
+            k -= 1
+        if k >= 0 and m[k] == "&":
+            a = k
+        new = "%s.le_bytes().as_slice()" % recv
+        apps.append(_app("R-le", text, a, mm.end(), new, "shim: little-endian bytes of the integer (std to_le_bytes), as a Vec"))
+        text = text[:a] + new + text[mm.end():]
+
+
+def rule_veczero(text):
+    apps = []
+    while True:
+        m = mask(text)
+        mm = re.search(r"\bvec!\s*\[\s*0\s*;", m)
+        if not mm:
+            return text, apps
+        ob = m.index("[", mm.start())
+        cb = match_close(m, ob)
+        n = text[mm.end():cb].strip()
+        new = "zeroed_vec(%s)" % n
+        apps.append(_app("R-vec", text, mm.start(), cb + 1, new, "shim: vec![0u8; n]"))
+        text = text[:mm.start()] + new + text[cb + 1:]
+
+
+def rule_divceil(text):
+    apps = []
+    while True:
+        m = mask(text)
+        hit = None
+        for dot, op, cl in _method_calls(text, m, "div_ceil"):
+            rs = _receiver_start(m, dot)
+            recv = text[rs:dot].strip()
+            arg = text[op + 1:cl].strip()
+            hit = (rs, cl + 1, "div_ceil_usize(%s, %s)" % (recv, arg))
+            break
+        if not hit:
+            return text, apps
+        a, b, new = hit
+        apps.append(_app("R-div", text, a, b, new, "shim: ceil(a/b), requires b > 0"))
+        text = text[:a] + new + text[b:]
+
+
+def rule_allzero(text):
+    apps = []
+    while True:
+        m = mask(text)
+        mm = re.search(r"\.\s*iter\s*\(\s*\)\s*\.\s*all\s*\(", m)
+        if not mm:
+            return text, apps
+        op = mm.end() - 1
+        cl = match_close(m, op)
+        parts = _closure_parts(text[op + 1:cl])
+        if not parts or not re.fullmatch(r"\*\s*%s\s*==\s*0" % re.escape(parts[0]), parts[1].strip()):
+            return text, apps
+        rs = _receiver_start(m, mm.start())
+        recv = text[rs:mm.start()].strip()
+        new = "all_zero(%s)" % recv
+        apps.append(_app("R-all", text, rs, cl + 1, new, "shim: every byte is 0"))
+        text = text[:rs] + new + text[cl + 1:]
+
+
+def rule_tryfrom(text):
+    """`uN::try_from(E).map_err(|_| ERR)?` -> `(match E.try_uN() { Some(v_) => v_, None => return Err(ERR) })`"""
+    apps = []
+    while True:
+        m = mask(text)
+        hit = None
+        for mm in re.finditer(r"\b(u32|usize|u64)\s*::\s*try_from\s*\(", m):
+            op = mm.end() - 1
+            cl = match_close(m, op)
+            t = re.match(r"\s*\.\s*map_err\s*\(", m[cl + 1:])
+            if not t:
+                continue
+            op2 = cl + 1 + t.end() - 1
+            cl2 = match_close(m, op2)
+            q = re.match(r"\s*\?", m[cl2 + 1:])
+            if not q:
+                continue
+            parts = _closure_parts(text[op2 + 1:cl2])
+            if not parts:
+                continue
+            e = text[op + 1:cl].strip()
+            new = "(match (%s).try_%s() { Some(v_) => v_, None => return Err(%s) })" % (e, mm.group(1), parts[1])
+            hit = (mm.start(), cl2 + 1 + q.end(), new)
+            break
+        if not hit:
+            return text, apps
+        a, b, new = hit
+        apps.append(_app("R-tryfrom", text, a, b, new, "shim: checked integer narrowing (std TryFrom); map_err+? desugared"))
+        text = text[:a] + new + text[b:]
+
+
+def rule_sort_windows(text):
+    apps = []
+    m = mask(text)
+    mm = re.search(r"(\w+)\s*\.\s*sort_unstable_by_key\s*\(", m)
+    if mm:
+        op = mm.end() - 1
+        cl = match_close(m, op)
+        parts = _closure_parts(text[op + 1:cl])
+        if parts and re.fullmatch(r"%s\s*\.\s*0" % re.escape(parts[0]), parts[1].strip()):
+            new = "sort_by_first(&mut %s)" % mm.group(1)
+            apps.append(_app("R-sort", text, mm.start(), cl + 1, new, "shim: result is a permutation of the input sorted by .0"))
+            text = text[:mm.start()] + new + text[cl + 1:]
+    m = mask(text)
+    mm = re.search(r"for\s+(\w+)\s+in\s+(\w+)\s*\.\s*windows\s*\(\s*2\s*\)\s*\{", m)
+    if mm:
+        p, v = mm.group(1), mm.group(2)
+        new = "for wi_ in 0..windows2_len(%s.len()) { let %s = [%s[wi_], %s[wi_ + 1]];" % (v, p, v, v)
+        apps.append(_app("R-sort", text, mm.start(), mm.end(), new, "definition of windows(2) over a slice"))
+        text = text[:mm.start()] + new + text[mm.end():]
+    return text, apps
+
+
+def rule_journal_iters(text):
+    """the two iterator one-liners of allocation_journal::decode"""
+    apps = []
+    m = mask(text)
+    mm = re.search(r"(\w+)\s*\.\s*into_iter\s*\(\s*\)\s*\.\s*max_by_key\s*\(", m)
+    if mm:
+        op = mm.end() - 1
+        cl = match_close(m, op)
+        parts = _closure_parts(text[op + 1:cl])
+        if parts and re.fullmatch(r"%s\s*\.\s*generation" % re.escape(parts[0]), parts[1].strip()):
+            new = "max_by_generation(%s)" % mm.group(1)
+            apps.append(_app("R-maxk", text, mm.start(), cl + 1, new, "shim: an element with maximal generation, the LAST one on ties (std max_by_key)"))
+            text = text[:mm.start()] + new + text[cl + 1:]
+    m = mask(text)
+    mm = re.search(r"(\w+)\s*\.\s*into_iter\s*\(\s*\)\s*\.\s*next_back\s*\(\s*\)", m)
+    if mm:
+        new = "vec_last(%s)" % mm.group(1)
+        apps.append(_app("R-maxk", text, mm.start(), mm.end(), new, "shim: last element of the Vec, if any"))
+        text = text[:mm.start()] + new + text[mm.end():]
+    return text, apps
+
+
+_COPY_VEC_CLONES = set()
+
+
+def rule_vecclone(text):
+    """`V.clone()` for a Vec of Copy elements named in UNIT['copy_vec_clones'] -> vec_clone_copy(&V)"""
+    apps = []
+    for v in sorted(_COPY_VEC_CLONES):
+        while True:
+            m = mask(text)
+            mm = re.search(r"\b%s\s*\.\s*clone\s*\(\s*\)" % re.escape(v), m)
+            if not mm:
+                break
+            new = "vec_clone_copy(&%s)" % v
+            apps.append(_app("R-clone", text, mm.start(), mm.end(), new, "shim: Vec<T: Copy>::clone is element-wise copy"))
+            text = text[:mm.start()] + new + text[mm.end():]
+    return text, apps
